@@ -81,6 +81,12 @@ func optLiterals(c *Ctx) {
 		"return [9223372036854775807 + 1, -9223372036854775807 - 2, 9223372036854775807 * 2, 1 << 63, 1 << 64, -1 >> 70, 5 / -2, -5 % 3]",
 		"return ['a' + 1, 'a' - 'b', 'a' * 2u, 1u - 2u, 'z' - 200, 2.5 % 2.0 == 0.5]",
 		"const k = 0.0\nreturn [k, -k, k * -1, -0.0 == k, string(-k)]",
+		// const groups with implicit repetition: every spec re-evaluates the repeated expression with its own iota
+		"const k = 10\nconst (a = (1 << iota) + k; b; c; d)\nreturn [a, b, c, d]",
+		"const k = 100\nconst (a = k + iota * 2; b; c)\nreturn [a, b, c]",
+		"const (a = 1 << (10 * (iota + 1)); b; c)\nreturn [a, b, c]",
+		"const k = 1\nf := func() { const (a = iota + k; b; c = \"s\" + iota; d); return [a, b, c, d] }\nreturn f()",
+		"const (x = iota; y; z)\nconst (p = -iota; q; r = iota % 2 == 0; s)\nreturn [x, y, z, p, q, r, s]",
 	}
 	for pi, src := range progs {
 		bc0, err0 := ugo.Compile([]byte(src), ugo.CompilerOptions{NoOptimize: true})
